@@ -162,3 +162,33 @@ def field_names(t):
         else:
             out.append(n)
     return out
+
+
+def recv_place_fields(body, operand):
+    """field names of the place a receiver operand borrows (`&mut a.b.c` -> ['b','c']), following one level of reborrow"""
+    p = operand.get('cp') or operand.get('mv')
+    if p is None:
+        return []
+    l = p['l']
+    for _ in range(4):
+        ds = body.defs().get(l, [])
+        if len(ds) != 1 or ds[0][0] != 'stmt':
+            return []
+        rv = ds[0][3]
+        if 'ref' in rv:
+            f = mirlib.place_fields(rv['ref'])
+            if f:
+                return f
+            l = rv['ref']['l']
+            continue
+        if 'use' in rv:
+            sp = rv['use'].get('cp') or rv['use'].get('mv')
+            if sp is None:
+                return []
+            f = mirlib.place_fields(sp)
+            if f:
+                return f
+            l = sp['l']
+            continue
+        return []
+    return []
